@@ -44,7 +44,11 @@ def shards(tier):
 def cases(ctx):
     rng = ctx.rng
     for i in range(ctx.shard["n"]):
-        if i % 33 == 5:
+        if i % 33 == 17:
+            # more than 1024 cells
+            mc = aggr.many_cells_case(rng)
+            c = {k: mc[k] for k in ("dense", "commons", "shape", "extents")}
+        elif i % 33 == 5:
             # cells with 256+ rows (per-cell counters on a narrow-integer boundary)
             c = gen.cube_case(rng, min_dims=0, max_dims=1, max_axes=1, max_extent=2,
                               n=gen.pick(rng, [256, 257, 300, 513]), allow_outside_common=False, explicit_shape=True)
